@@ -231,7 +231,9 @@ inline vegas_pdf<T> vegas_refine_pdf(vegas_pdf<T> const& pdf, T alpha, std::vect
             if (tmp[bin] != T())
             {
                 T const r = tmp[bin] / norm;
-                T const impfun = pow((r - T(1.0)) / log(r), alpha);
+                // (r - 1) / log(r) -> 1 for r -> 1; r is exactly one if all other smoothed entries
+                // underflowed to zero, and 0 / 0 would make every boundary NaN
+                T const impfun = (r == T(1.0)) ? T(1.0) : pow((r - T(1.0)) / log(r), alpha);
                 average_per_bin += impfun;
                 tmp[bin] = impfun;
             }
